@@ -93,6 +93,48 @@ theorem ring_is_recency_order (lru : Bool) (max : Nat) (hmax : 1 ≤ max) (om : 
   obtain ⟨s, hs, h⟩ := (refines_ref lru max hmax om ops).of_mem hc
   exact ⟨s, hs, h.d, h.d ▸ h.inv.sync.perm.symm, h.sorted⟩
 
+/-- the reference cache by itself: assigning to a present key, or while there is room, touches
+    no other key; a new key entering a full cache removes exactly the key with the oldest stamp;
+    the assigned key gets the current time as its stamp, no other stamp changes -/
+theorem ref_assign_evicts_oldest (s : Ref K V) (hn : (keys s.ents).Nodup) (hmax : 1 ≤ s.max) (k : K) (v : V) :
+    lookup k (s.assign k v).ents = some v ∧
+    (s.assign k v).stamp k = s.now ∧ (∀ k', k' ≠ k → (s.assign k v).stamp k' = s.stamp k') ∧
+    s.now < (s.assign k v).now ∧
+    ((lookup k s.ents).isSome ∨ s.ents.length < s.max →
+      ∀ k', k' ≠ k → lookup k' (s.assign k v).ents = lookup k' s.ents) ∧
+    (lookup k s.ents = none → ¬ s.ents.length < s.max →
+      ∃ m, oldest s.stamp (keys s.ents) = some m ∧ (∀ k' ∈ keys s.ents, s.stamp m ≤ s.stamp k') ∧
+        lookup m (s.assign k v).ents = none ∧
+        ∀ k', k' ≠ m → k' ≠ k → lookup k' (s.assign k v).ents = lookup k' s.ents) := by
+  refine ⟨lookup_dset_self _ _ _, by simp [Ref.assign, setStamp], ?_, by simp [Ref.assign], ?_, ?_⟩
+  · intro k' h; simp [Ref.assign, setStamp, h]
+  · intro h k' hne
+    show lookup k' (dset k v (s.makeRoom k)) = _
+    rw [lookup_dset_ne hne]; unfold Ref.makeRoom; rw [if_pos h]
+  · intro hk hfull
+    have hne : s.ents ≠ [] := by intro e; rw [e] at hfull; simp at hfull; omega
+    cases ho : oldest s.stamp (keys s.ents) with
+    | none =>
+      exfalso
+      cases hl : s.ents with
+      | nil => exact hne hl
+      | cons p l =>
+        rw [hl] at ho; simp only [keys_cons, oldest] at ho
+        split at ho
+        · simp at ho
+        · split at ho <;> simp at ho
+    | some m =>
+      have hm := ref_victim_is_oldest s.stamp _ m ho
+      have hd : (s.assign k v).ents = dset k v (eraseKey m s.ents) := by
+        show dset k v (s.makeRoom k) = _
+        unfold Ref.makeRoom
+        rw [if_neg (by rw [hk]; simp [hfull]), ho]
+      have hmk : m ≠ k := by
+        intro e; rw [e] at hm; exact (lookup_none_iff _ _).1 hk hm.1
+      refine ⟨m, rfl, hm.2, ?_, ?_⟩
+      · rw [hd, lookup_dset_ne hmk, lookup_eraseKey_self _ _ hn]
+      · intro k' h1 h2; rw [hd, lookup_dset_ne h2, lookup_eraseKey_ne h1]
+
 /-! ### capacity and the three structures staying in step -/
 
 /-- the representation invariant holds in every reachable cache -/
@@ -227,6 +269,31 @@ theorem on_miss_result_cached {c : Cache K V} (hi : Inv c) {op : Op K V} {k : K}
     (step c op).1.hit = c.hit ∧ (step c op).1.miss = c.miss + 1 ∧ (step c op).1.soft = c.soft := by
   have := step_lookup_onMiss hi hop hk hom
   exact ⟨this.1, this.2.2.2.2.2, this.2.1, this.2.2.1, this.2.2.2.1⟩
+
+/-- LRI: a successful lookup does not change the eviction order; LRU: it moves the key to the
+    most-recent end of the ring (and nothing else) -/
+theorem lookup_refreshes_only_lru {c : Cache K V} (hi : Inv c) {op : Op K V} {k : K} {v : V}
+    (hop : op.lookupKey = some k) (hk : lookup k c.d = some v) :
+    (step c op).1.ring = if c.lru then toFront k v c.ring else c.ring := by
+  have hr : lookup k c.ring = some v := by rw [← hi.sync.agree, hk]
+  cases op with
+  | getitem k' => simp [Op.lookupKey] at hop; subst hop; simp [step, Cache.getitem_hit hr]
+  | get k' d => simp [Op.lookupKey] at hop; subst hop; simp [step, Cache.getitem_hit hr]
+  | setdefault k' d => simp [Op.lookupKey] at hop; subst hop; simp [step, Cache.getitem_hit hr]
+  | _ => simp [Op.lookupKey] at hop
+
+/-- insertion or assignment always makes the key the most recent one (LRI and LRU alike) -/
+theorem assignment_refreshes {c : Cache K V} (hi : Inv c) (k : K) (v : V) :
+    (c.setitem k v).ring.getLast? = some (k, v) := by
+  unfold Cache.setitem
+  split
+  · simp [toFront]
+  · split
+    · simp
+    · rename_i hfull
+      split
+      · rename_i hr; exact absurd hr (evict_ring_nonempty hi hfull)
+      · simp
 
 /-- what one call adds to (hit, miss, soft_miss) according to the statement: a lookup that finds
     the key is a hit, one that does not is a miss, and a miss answered by the caller's default
